@@ -118,6 +118,25 @@ def eagerNsmaps (t : Tree) : Option (List (Nat × NsMap)) :=
   let s := nsRun false NsSt.init (events t)
   if s.fail then none else some s.out
 
+/- Where the pinned eager loop (`popAtEnd = false`) loses a pop: `tailFlag t` = the value of `end_ns` after the
+   events of `t`; the loop is right on `t` iff no element with declarations closes while `end_ns` is still set
+   by its last child (`eagerSafe`). -/
+mutual
+def tailFlag : Tree → Bool
+  | .node _ _ ds cs => !ds.isEmpty || tailFlagF false cs
+def tailFlagF (f0 : Bool) : List Tree → Bool
+  | [] => f0
+  | t :: ts => tailFlagF (tailFlag t) ts
+end
+
+mutual
+def eagerSafe : Tree → Bool
+  | .node _ _ ds cs => (ds.isEmpty || !tailFlagF false cs) && eagerSafeF cs
+def eagerSafeF : List Tree → Bool
+  | [] => true
+  | t :: ts => eagerSafe t && eagerSafeF ts
+end
+
 /-! ## 3. lazy iteration loops (only 'start' / 'end' events reach them) -/
 
 inductive Kind where
